@@ -543,6 +543,41 @@ func (e *codecEngine) Exec(line string) (obs string, viol string) {
 			return "unknown x" + hex.EncodeToString([]byte(name)), viol
 		}
 		return strings.Join(append(append([]string{"ok", name}, w.ts...), fmt.Sprintf("rest=%d", rd.RemainingSize())), " "), viol
+	case "wnil", "wzero":
+		// WriteMessage on a typed-nil pointer of a registered message type / on its zero value (every pointer
+		// and interface field nil): an error or a value, never a panic (the deferred recover above reports it)
+		if len(tk) != 2 {
+			return "bad-op", ""
+		}
+		desc := messages.QueryMessageDescByName(tk[1])
+		if desc == nil || desc.IsOutside() {
+			return "bad-op", ""
+		}
+		inst := desc.Instance()
+		var m any = inst
+		if tk[0] == "wnil" {
+			m = reflect.Zero(reflect.TypeOf(inst)).Interface()
+		}
+		var werr error
+		func() {
+			defer func() {
+				if r := recover(); r != nil {
+					obs = "panic"
+					viol = fmt.Sprintf("PANIC: WriteMessage(%s %T) panics instead of returning an error: %v", map[string]string{"wnil": "nil pointer", "wzero": "zero value of"}[tk[0]], inst, r)
+				}
+			}()
+			werr = messages.NewWriter().WriteMessage(m, stubCodec{})
+		}()
+		if obs == "panic" {
+			return obs, viol
+		}
+		if tk[0] == "wnil" {
+			if werr == nil {
+				return "ok", ""
+			}
+			return "err", ""
+		}
+		return "nopanic", ""
 	case "rfl", "rflinto":
 		if len(tk) < 3 {
 			return "bad-op", ""
@@ -760,6 +795,14 @@ func (e *codecEngine) Generate(c *Ctx) {
 	for _, k := range WriteKinds {
 		o := c.Do("write " + k)
 		c.R.Hit("write:" + o)
+	}
+	// nil pointers and nil fields of every registered message type
+	c.Case("cfg " + memCap + " " + strings.Join(names, " "))
+	for _, n := range names {
+		o := c.Do("wnil " + n)
+		c.R.Hit("wnil:" + o)
+		o = c.Do("wzero " + n)
+		c.R.Hit("wzero:" + o)
 	}
 	// the reflective reader on Go slices / structs (what a user's CustomMessageReader calls)
 	e.reflectiveCases(c, g, "cfg "+memCap+" "+strings.Join(names, " "))
